@@ -94,6 +94,8 @@ class World:
 
     # ------------------------------------------------------------------ paths
     def abs(self, rel):
+        if rel.endswith("/") and len(rel) > 1:
+            return os.path.join(self.base, *rel[:-1].split("/")) + os.sep  # a root typed with a trailing separator
         return os.path.join(self.base, *rel.split("/")) if rel else self.base
 
     def rel(self, absolute):
@@ -340,6 +342,7 @@ class World:
             args += ["-sf", self.abs(s)]
         args += list(extra)
         roots_before = self.history_roots()
+        root = root.rstrip("/") if len(root) > 1 else root
         r = self.run("create", args, **kw)
         if r.exit_code in (0, 10, 11, 30) and r.exc is None:
             self._note_recorded(root, sf, roots_before)
